@@ -614,6 +614,19 @@ static void phase_exhaustive(int U) {
             if (P == 11 && vf_san_poll()) { /* recorded */ }
             if (vf_nviol >= 30) goto out;
         }
+        /* C02 also covers operations that FAIL: a put whose k-th allocation fails must leave a valid tree */
+        if (P == 2) for (int o = 0; o < nid; o++) for (long k = 1; k <= 3; k++) {
+            table_new(); replay_path(s.path, s.len);
+            vf_case_begin(caseno, "exhaustive U=%d ordering=%s keyclass=%s state#%zu pathlen=%d failing put k%d (allocation %ld fails)", U, ORD[ORDI].name, KCLS[kcls], qh - 1, s.len, ids[o], k);
+            { char pb[400]; int n = 0; for (int i = 0; i < s.len && n < 380; i++) n += snprintf(pb + n, sizeof pb - (size_t)n, "%c%d ", (s.path[i] & 0x80) ? '-' : '+', s.path[i] & 0x7f); pb[n] = 0; vf_log("path: %s", pb); }
+            vf_oom_k = k; vf_oom_all = false;
+            op_put(ids[o]);
+            vf_count("evaluations", 1);
+            if (vf_oom_last_hits) vf_count("failed_or_fault_injected_puts_checked", 1);
+            if (!abandon) structure_check(true);
+            table_free();
+            if (vf_nviol >= 30) goto out;
+        }
     }
 out:
     vf_count("exhaustive_transitions", transitions);
@@ -692,7 +705,7 @@ static void history(long caseno) {
             else if (c < 98) { if (MN > 0) op_walk((int)rng_below(&R, (uint32_t)MN + 1), false); }
             else if (rng_chance(&R, 1, 8)) { op_clear(); mut = true; }
         } else {   /* C01 / C02 / C11 */
-            if (c < 40) { op_put(pick_key()); mut = true; }
+            if (c < 40) { if ((P == 1 || P == 2) && rng_chance(&R, 1, 12)) { vf_oom_k = 1 + rng_below(&R, 3); vf_oom_all = false; vf_count("puts_with_injected_allocation_failure", 1); } op_put(pick_key()); mut = true; }
             else if (c < 65) { op_remove(pick_key()); mut = true; }
             else if (c < 92) op_get(pick_key());
             else if (c < 94) { vf_log("size"); if (T->size(T) != (size_t)MN) judge("C01", "size", "size()=%zu model=%d", T->size(T), MN); }
